@@ -24,7 +24,7 @@ use tu_verif::run::Run;
 /// form a ZWJ sequence
 const SIGMA1: [&str; 11] = ["a", " ", "ä", "€", "😀", "\u{301}", "\r", "\n", "\u{200d}", "👩", "💻"];
 /// special-token spellings and their look-alike fragments next to multi-byte text
-const FRAGMENT_SETS: [[&str; 10]; 3] = [
+const FRAGMENT_SETS: [[&str; 10]; 4] = [
     ["<pad>", "<bos>", "<unk>", "<pa", "pad>", "<", ">", "ä", "a", "😀"],
     // for the special-token set with regular-expression metacharacters: the spellings themselves,
     // pieces of them, and texts an unescaped pattern would match ("B" for the class [B+S], "<eas" for
@@ -33,12 +33,14 @@ const FRAGMENT_SETS: [[&str; 10]; 3] = [
     // for the special-token set whose bos and eos are a single byte each ("|" and LF): the byte ids of
     // these bytes and the special ids of these tokens are different numbers
     ["|", "\n", "<pad>", "<unk>", "a", "ä", "<", "pad>", " ", "\r"],
+    // for the configured list with repeated entries (same spellings as the first set)
+    ["<pad>", "<bos>", "<unk>", "<eos>", "pad>", "<", ">", "ä", "a", "😀"],
 ];
 /// symbols of the character tokenizer's alphabet (round trip)
 const SIGMA3: [&str; 7] = ["a", "Z", "0", "\"", "\\", " ", "~"];
 /// special-token sets [unk, bos, eos, pad]; the second one spells bos and eos with characters that
 /// are regular-expression metacharacters ([ ] + . | ?)
-const SPECIAL_SETS: [[&str; 4]; 3] = [["<unk>", "<bos>", "<eos>", "<pad>"], ["<unk>", "[B+S]", "<e.s|x?>", "<pad>"], ["<unk>", "|", "\n", "<pad>"]];
+const SPECIAL_SETS: [[&str; 4]; 4] = [["<unk>", "<bos>", "<eos>", "<pad>"], ["<unk>", "[B+S]", "<e.s|x?>", "<pad>"], ["<unk>", "|", "\n", "<pad>"], ["<unk>", "<bos>", "<eos>", "<pad>"]];
 static VARIANT: std::sync::atomic::AtomicUsize = std::sync::atomic::AtomicUsize::new(0);
 
 fn variant() -> usize {
@@ -215,11 +217,11 @@ struct CharCfg {
 
 fn byte_cfg_json(c: &ByteCfg) -> Value {
     json!({"use_graphemes": c.graphemes, "groups": if c.code_point_groups { "code_points" } else { "bytes" },
-           "pad_to_multiple_of": c.pad_to, "special_tokens": specials(), "pad": PAD, "prefix": c.prefix, "suffix": c.suffix})
+           "pad_to_multiple_of": c.pad_to, "special_tokens": specials(), "special_token_list_has_repeated_entries": variant() == 3, "pad": PAD, "prefix": c.prefix, "suffix": c.suffix})
 }
 
 fn char_cfg_json(c: &CharCfg) -> Value {
-    json!({"use_graphemes": c.graphemes, "unk_token": UNK, "special_tokens": specials(), "pad": PAD, "prefix": c.prefix, "suffix": c.suffix})
+    json!({"use_graphemes": c.graphemes, "unk_token": UNK, "special_tokens": specials(), "special_token_list_has_repeated_entries": variant() == 3, "pad": PAD, "prefix": c.prefix, "suffix": c.suffix})
 }
 
 fn strs(v: &Value) -> Vec<String> {
@@ -275,7 +277,11 @@ fn char_cfgs() -> Vec<CharCfg> {
 }
 
 fn special_config(prefix: &[String], suffix: &[String]) -> SpecialConfig {
-    SpecialConfig { pad: PAD.to_string(), tokens: specials().iter().map(|s| s.to_string()).collect(), prefix: prefix.to_vec(), suffix: suffix.to_vec() }
+    let [unk, bos, eos, pad] = *specials();
+    // the fourth variant configures the list with repeated entries in front of the tokens that the
+    // prefix / suffix lists use (positions in the raw list and ids in the vocabulary then differ)
+    let tokens: Vec<&str> = if variant() == 3 { vec![unk, unk, bos, unk, eos, bos, pad, eos] } else { vec![unk, bos, eos, pad] };
+    SpecialConfig { pad: PAD.to_string(), tokens: tokens.iter().map(|s| s.to_string()).collect(), prefix: prefix.to_vec(), suffix: suffix.to_vec() }
 }
 
 /// The id of every configured special token: the unique position at which the vocabulary lists its
@@ -521,6 +527,7 @@ fn main() {
     if let Some(c) = run.replay_case() {
         let recorded = strs(&c["config"]["special_tokens"]);
         let v = SPECIAL_SETS.iter().position(|set| set.iter().map(|x| x.to_string()).collect::<Vec<_>>() == recorded).unwrap_or(0);
+        let v = if c["config"]["special_token_list_has_repeated_entries"].as_bool().unwrap_or(false) { 3 } else { v };
         VARIANT.store(v, std::sync::atomic::Ordering::Relaxed);
         let s = c["s"].as_str().unwrap().to_string();
         let ign = c["ignore_special_tokens"].as_bool().unwrap();
@@ -545,9 +552,11 @@ fn main() {
     let space2 = Space { n1: 0, n2: count_strings(FRAGMENT_SETS[1].len(), l2), n3: 0, chunk: space.chunk };
     // third pass: the set with one-byte special tokens, on its fragment alphabet (one symbol shorter)
     let space3 = Space { n1: 0, n2: count_strings(FRAGMENT_SETS[2].len(), l2 - 1), n3: 0, chunk: space.chunk };
+    // fourth pass: the default spellings configured as a list with repeated entries (two symbols shorter)
+    let space4 = Space { n1: 0, n2: count_strings(FRAGMENT_SETS[3].len(), l2 - 2), n3: 0, chunk: space.chunk };
     if let Some(n) = run.describe_unit() {
-        if n >= space.units() + space2.units() + space3.units() {
-            println!("{}", json!({"long_phase_length_index": n - space.units() - space2.units() - space3.units(), "lengths": tu_verif::enumerate::threshold_lengths(run.pick(8, 10))}));
+        if n >= space.units() + space2.units() + space3.units() + space4.units() {
+            println!("{}", json!({"long_phase_length_index": n - space.units() - space2.units() - space3.units() - space4.units(), "lengths": tu_verif::enumerate::threshold_lengths(run.pick(8, 10))}));
             return;
         }
         if n >= space.units() + space2.units() {
@@ -599,7 +608,7 @@ fn main() {
     run.assumptions.push("a special token's id is the id at which get_vocab lists its spelling (agreeing with token_to_id); the character tokenizer's alphabet is the set of single-code-point non-special vocabulary entries".into());
 
     let (mut parsed_specials, mut unknowns) = (0u64, 0u64);
-    for (v, space, unit0) in [(0usize, &space, 0u64), (1, &space2, space.units()), (2, &space3, space.units() + space2.units())] {
+    for (v, space, unit0) in [(0usize, &space, 0u64), (1, &space2, space.units()), (2, &space3, space.units() + space2.units()), (3, &space4, space.units() + space2.units() + space3.units())] {
     VARIANT.store(v, std::sync::atomic::Ordering::Relaxed);
     let (bcfgs, ccfgs) = (byte_cfgs(), char_cfgs());
     let bytes: Vec<ByteSubject> = bcfgs.iter().filter_map(|c| build_byte(&mut run, c)).collect();
@@ -657,7 +666,7 @@ fn main() {
         let (bcfgs, ccfgs) = (byte_cfgs(), char_cfgs());
         let lens = tu_verif::enumerate::threshold_lengths(run.pick(8, 10));
         run.bounds.insert("long_phase".into(), json!(format!("symbol counts {lens:?} x 7 repeated patterns (the last one with the lowest and the highest code point) x every tokenizer config x ignore_special_tokens")));
-        let unit_l = space.units() + space2.units() + space3.units();
+        let unit_l = space.units() + space2.units() + space3.units() + space4.units();
         let mut subjects: Option<(Vec<ByteSubject>, Vec<CharSubject>)> = None;
         for (k, n) in lens.iter().enumerate() {
             if !run.unit(unit_l + k as u64) {
